@@ -286,23 +286,3 @@ Proof. intros ls Hne H. cbn [tok_lines]. now rewrite split_join_l. Qed.
 
 Lemma one_line_l : forall text, ~ In 10%Z text -> tok_lines (IStr text) = [rstrip text].
 Proof. intros text H. cbn [tok_lines]. now rewrite split_nl_one. Qed.
-
-(* ---------------- the caller's later changes of its synonyms / keywords dicts ---------------- *)
-(* [syn_aliased] / [kw_aliased] (gen/C01_Consts.v) are read from the current source: these proofs go through
-   exactly while the tokenizer stores COPIES of both dicts (/repo f245e65) *)
-Lemma cfg_after_same : forall cfg cfg2, cfg_after cfg cfg2 = cfg.
-Proof. intros [lx sp sy kw] [c2|]; reflexivity. Qed.
-
-Lemma s_tokens_after_same : forall tk cfg2 src, s_tokens_after tk cfg2 src = s_tokens tk src.
-Proof.
-  intros tk cfg2 src. unfold s_tokens_after, s_tokens.
-  destruct src as [l|s]; [reflexivity|]. destruct tk as [[cfg skip]|]; [|reflexivity].
-  now rewrite cfg_after_same.
-Qed.
-
-Lemma s_call_after_same : forall tk cfg2 p fuel texts c,
-  s_call_with (s_tokens_after tk cfg2) p fuel texts c = s_call tk p fuel texts c.
-Proof.
-  intros. unfold s_call, s_call_with. destruct (nth_error texts (fst c)); [|reflexivity].
-  now rewrite s_tokens_after_same.
-Qed.
